@@ -218,14 +218,23 @@ fn rename_qualifier<'a>(
         return Ok(());
     };
 
-    // Rename the qualifier definition
-    let def_location = node_location(workspace, definition.node())?;
-    let def_edit = TextEdit::new(def_location.range, new_name.into());
-    changes.insert(def_location.uri, vec![def_edit]);
-
-    // Rename all references to the qualifier
     let loc = definition.node().span().unwrap().locator().clone();
     let module = folder.module(&loc).unwrap();
+
+    // Rename the qualifier definitions: the imports that share the name share the qualifier.
+    let mut def_edits = Vec::new();
+    for import in module.root().descendants().filter_map(Qualifier::cast) {
+        match import.identifier() {
+            Some(other) if other == definition => {
+                let location = node_location(workspace, other.node())?;
+                def_edits.push(TextEdit::new(location.range, new_name.into()));
+            }
+            _ => {}
+        }
+    }
+    changes.insert(loc.url().clone(), def_edits);
+
+    // Rename all references to the qualifier
     for var in module.root().descendants().filter_map(Variable::cast) {
         match (var.qualifier(), qualifier.identifier()) {
             (Some(reference), Some(definition)) if reference == definition => {
